@@ -344,12 +344,16 @@ bool qtreetbl_putobj(qtreetbl_t *tbl, const void *name, size_t namesize,
     errno = 0;
     qtreetbl_obj_t *root = put_obj(tbl, tbl->root, name, namesize, data,
                                    datasize);
+    if (root != NULL) {
+        // the tree may have been restructured on the way down even if the
+        // insertion itself failed, so always keep the returned root.
+        root->red = false;
+        tbl->root = root;
+    }
     if (root == NULL || errno == ENOMEM) {
         qtreetbl_unlock(tbl);
         return false;
     }
-    root->red = false;
-    tbl->root = root;
     qtreetbl_unlock(tbl);
 
     return true;
